@@ -135,8 +135,8 @@ def check_state(P, ctx):
     g = P.cfg(fn)
     N = util.Norm(P, fn, inline=False)
     w = [(n, N.canon(ev['lhs']), N.canon(ev['rhs'])) for n in g.live() if n['expr'] is not None for ev in util.expr_events(n['expr'], n)
-         if ev['t'] == 'write' and ir.top_nocast(ev['lhs'])[0] == 'arrow']
-    ok = len(w) == 1 and w[0][1][2] == 'cls' and w[0][2] == ('param', 1)
+         if ev['t'] == 'write' and ir.top_nocast(ev['lhs'])[0] in ('arrow', 'dot', 'idx', 'un')]
+    ok = len(w) == 1 and w[0][1][0] in ('arrow', 'dot') and w[0][1][2] == 'cls' and w[0][2] == ('param', 1)
     ctx.check(ok, rule, 'Type_Scan:memo', site(fn), 'the only store of the scan records the queried class in the matching triple')
     fn = P.fn('Type_Of')
     g = P.cfg(fn)
@@ -152,42 +152,88 @@ def check_state(P, ctx):
     ctx.floor(rule, 18)
 
 
+def eval_scan(P, fn):
+    """Evaluate Type_Scan on abstract type records: the instance triples (name, class, instance) from index CELLO_NBUILTINS on,
+    ended by the all-NULL triple; up to 3 triples, each with its class word equal to the queried class / another class / unset,
+    and its name equal or not to the queried class's name.  Expected: the instance of the first triple whose class word is the
+    queried class; else the instance of the first triple whose name is *equal* to the class's name, after recording the class in
+    that triple (and nothing else stored); else NULL.  Returns (scenarios, mismatch or None, unsupported or None)."""
+    from . import cint
+    import itertools
+    nb = P.enums.get('CELLO_NBUILTINS')
+    Q, OTHER = 9001, 9002           # class objects
+    QNAME, ONAME, LONGER = 'Cmp', 'Len', 'Cmpx'         # class names: the queried one, another, one that merely starts with it
+    n_eval = 0
+    for k in range(0, 4):
+        for combo in itertools.product(((Q, ONAME), (OTHER, QNAME), (0, QNAME), (0, ONAME), (OTHER, ONAME), (0, LONGER)), repeat=k):
+            atoms = {('enum', 'CELLO_NBUILTINS'): nb, ('global', 'Type'): 9100}
+            for idx, (cw, nm) in enumerate(combo):
+                atoms[('elem', 'T', nb + idx, 'name')] = nm
+                atoms[('elem', 'T', nb + idx, 'cls')] = cw
+                atoms[('elem', 'T', nb + idx, 'inst')] = 7000 + idx
+            atoms[('elem', 'T', nb + k, 'name')] = 0
+            atoms[('elem', 'T', nb + k, 'cls')] = 0
+            atoms[('elem', 'T', nb + k, 'inst')] = 0
+            before = dict(atoms)
+
+            def call(nm_, e, it):
+                if nm_ == 'type_of':
+                    return 9100
+                if nm_ == 'Type_Builtin_Name':
+                    return QNAME if it.ev(e[2][0]) == Q else ONAME
+                if nm_ == 'strcmp':
+                    a, b = it.ev(e[2][0]), it.ev(e[2][1])
+                    return 0 if a == b else (1 if a > b else -1)
+                if nm_ == 'strncmp':
+                    a, b, n_ = it.ev(e[2][0]), it.ev(e[2][1]), it.ev(e[2][2])
+                    a, b = a[:n_], b[:n_]
+                    return 0 if a == b else (1 if a > b else -1)
+                if nm_ == 'strlen':
+                    return len(it.ev(e[2][0]))
+                raise cint.NoEval('call %s' % nm_)
+            it = cint.CInt(P, fn, atoms=atoms, call=call)
+            r = it.run([('ep', 'T', 0), Q])
+            n_eval += 1
+            if r[0] == 'stuck' and 'no value for element' in str(r[1]):
+                return n_eval, ('record with %d declared instance(s): the scan reads a triple outside the range from the first declared instance to the '
+                                'terminating triple (%s at %s)' % (k, r[1], P.cfg(fn).describe(r[2]))), None
+            if r[0] == 'stuck':
+                return n_eval, None, '%s at %s' % (r[1], P.cfg(fn).describe(r[2]))
+            want, want_store = 0, None
+            hit = [i for i, (cw, nm) in enumerate(combo) if cw == Q]
+            if hit:
+                want = 7000 + hit[0]
+            else:
+                byname = [i for i, (cw, nm) in enumerate(combo) if nm == QNAME]
+                if byname:
+                    want = 7000 + byname[0]
+                    want_store = ('elem', 'T', nb + byname[0], 'cls')
+            got = r[1] if r[0] == 'ret' else r[0]
+            changed = {kk for kk in it.atoms if isinstance(kk, tuple) and kk[0] == 'elem' and it.atoms[kk] != before.get(kk)}
+            desc = 'record with triples (class word, name) %s, queried class Q named Cmp' % [('Q' if cw == Q else ('other' if cw == OTHER else 'unset'), nm) for cw, nm in combo]
+            if got != want:
+                return n_eval, '%s: returns %s, expected %s' % (desc, 'NULL' if got == 0 else ('instance %d' % (got - 7000) if isinstance(got, int) and got >= 7000 else got),
+                                                              'NULL' if want == 0 else 'instance %d' % (want - 7000)), None
+            wantset = {want_store} if want_store else set()
+            if changed != wantset or (want_store and it.atoms[want_store] != Q):
+                return n_eval, '%s: stores into %s, expected %s' % (desc, sorted(map(str, changed)), 'the class word of the matching triple only' if want_store else 'nothing'), None
+    return n_eval, None, None
+
+
 def check_scan(P, ctx):
     rule = 'C08.scan'
     fn = P.fn('Type_Scan')
-    g = P.cfg(fn)
     ctx.fn(fn)
-    N = util.Norm(P, fn, inline=False)
-    NX = util.Norm(P, fn, inline=False, expand_locals=True)
-    inits = [n for n in g.live() if n['kind'] == 'stmt' and n['expr'] is not None and N.canon(n['expr'])[0] == 'assign' and N.canon(n['expr'])[2][0] == 'local' and
-             NX.canon(ir.top_nocast(n['expr'])[3]) == ir.canon(('bin', '+', ('param', 'self', 0), ('enum', 'CELLO_NBUILTINS'))) and not n.get('decl')]
-    loopc = [n for n in g.live() if n['kind'] == 'cond' and N.canon(n['expr'])[0] == 'arrow' and N.canon(n['expr'])[2] == 'name']
-    ok = len(inits) == 2 and len(loopc) == 2
-    ctx.check(ok, rule, 'passes', site(fn), 'both passes start at the first declared instance (self + CELLO_NBUILTINS) and run while the triple has a name (the all-NULL triple terminates)')
-    if not ok:
-        return
-    tvar = N.canon(inits[0]['expr'])[2]
-    for k, lc in enumerate(sorted(loopc, key=lambda n: n['id'])):
-        body = g.reach_from(succ_of(lc, True), cut_nodes=[lc['id']])
-        adv = [g.nodes[i] for i in body if g.nodes[i]['kind'] == 'stmt' and g.nodes[i]['expr'] is not None and N.canon(g.nodes[i]['expr']) in (('un', 'post++', tvar), ('un', 'pre++', tvar))]
-        rets = [g.nodes[i] for i in body if g.nodes[i]['kind'] == 'ret']
-        tests = [g.nodes[i] for i in body if g.nodes[i]['kind'] == 'cond']
-        ok = len(adv) == 1 and len(rets) == 1 and len(tests) == 1 and N.canon(rets[0]['expr']) == ('arrow', tvar, 'inst') and \
-            g.must_pass(rets[0]['id'], through_edges=[(tests[0]['id'], True)]) and lc['id'] not in g.reach_from(succ_of(lc, True), cut_nodes=[adv[0]['id']])
-        t = N.canon(tests[0]['expr']) if tests else None
-        if k == 0:
-            ok = ok and t == ir.canon(('bin', '==', ('arrow', tvar, 'cls'), ('param', 'cls', 1)))
-            what = 'by class pointer: returns the instance of the triple whose recorded class is the queried one'
-        else:
-            want = ir.canon(('bin', '==', ('call', ('func', 'strcmp'), (('arrow', tvar, 'name'), ('call', ('func', 'Type_Builtin_Name'), (('param', 'cls', 1),)))), ('int', 0)))
-            ok = ok and t == want
-            what = 'by name: returns the instance of the triple whose class name is *equal* (strcmp == 0) to the queried class\'s name'
-        ctx.check(ok, rule, 'pass%d' % (k + 1), site(fn, lc['line']), 'scan ' + what + ', advancing one triple per step',
-                  ['match test: %s' % (ir.fmt(t) if t else None)])
-    rets = [n for n in g.live() if n['kind'] == 'ret' and ir.is_null(n['expr'])]
-    ok = len(rets) == 1 and all(g.must_pass(rets[0]['id'], through_edges=[(lc['id'], False)]) for lc in loopc)
-    ctx.check(ok, rule, 'none', site(fn), 'NULL (no such instance) is returned only after both passes reached the terminating triple')
-    ctx.floor(rule, 4)
+    n, bad, unsup = eval_scan(P, fn)
+    ctx.stats['paths'] += n
+    if unsup:
+        ctx.undecided(rule, 'Type_Scan', site(fn), 'the scan leaves the evaluated fragment: ' + unsup)
+    else:
+        ctx.check(bad is None, rule, 'Type_Scan', site(fn),
+                  'the scan of a type record returns the instance recorded for the queried class, else the instance whose class name is equal (strcmp == 0) to the '
+                  'class\'s name and records the class there, else NULL; it starts at the first declared instance and stops at the all-NULL triple '
+                  '(%d abstract records evaluated)' % n, [bad] if bad else None)
+    ctx.floor(rule, 1)
 
 
 def check_layout(P, ctx, cache_num):
